@@ -251,6 +251,7 @@ def async_generator(I, fv, args, kwargs):
     if c is None or not c.yields:
         raise Unsupported(f"async generator {fv.qualname} needs a contract with `yields`")
     loc = I.bind_params(fv, args, kwargs)
+    cs.used.add(c.target)
     sfr = cs.clause_frame(c, loc)
     for k, src in enumerate(c.requires):
         t = cs.eval_clause(I, c, src, sfr, assuming=False)
